@@ -49,6 +49,11 @@ OWN = [
     ["name x3", "version 1.0", "", "MeasureX | 0", "Zgate(-(q0**2), 1/q0) | %(m)s", "Zgate(arctan(q0)) | %(m)s"],
     ["name x4", "version 1.0", "", "Rgate(1/{a}, -1/({a}*{b}), ({a}-{b})/({a}+{b})) | %(m)s"],
     ["name x6", "version 1.0", "", "Rgate(-({a}**2)-{b}**2*3, (-({a}**3)+1)*{b}, -(({a}+{b})**2)) | %(m)s", "MeasureX | 0", "Zgate(-(q0**2)-q1**2) | %(m)s"],
+    ["name x7", "version 1.0", "", "Rgate(-(sin({a})**2), -(({a}+1)**2), -((2*({a}+{b}))**2)) | %(m)s", "MeasureX | 0", "Zgate(-(cos(q0)**2), -(exp(q0)**3)) | %(m)s"],
+    ["name x8", "version 1.0", "", "Rgate(-((0.00025*{a})**2), -({a}**0.5), -(sqrt({a})**3)) | %(m)s"],
+    ["name w1", "version 1.0", "", "float array A[1, 1] =", "    {a}", "Foo(A) | %(m)s"],
+    ["name w2", "version 1.0", "", "float array A[2, 2] =", "    {w}", "Foo(A, k=A) | %(m)s"],
+    ["name b1", "version 1.0", "target sim (flags=[True, %(i)s, False])", "", "Gate(mask=[True, False, %(i)s], other=[False]) | %(m)s"],
     ["name x5", "version 1.0", "", "Rgate({a}**-1, {a}**0.5, 2**{a}) | %(m)s"],
     # tdm
     ["name d1", "version 1.0", "type tdm (temporal_modes=%(i)s, copies=%(i)s)", "", "int array p0 =", "    %(i)s, %(i)s, %(i)s", "float array p1 =", "    %(f)s, %(f)s, %(f)s",
